@@ -232,6 +232,8 @@ impl ActorProperties {
     fn try_admit_message(&self) -> Option<MessageAdmission<'_>> {
         let mut state = self.message_admission.load(Ordering::Relaxed);
         loop {
+            #[cfg(ractor_verif)]
+            crate::verif::point("adm.iter", self.id.pid(), 0);
             if state & MESSAGE_ADMISSION_CLOSED != 0 {
                 return None;
             }
@@ -257,6 +259,8 @@ impl ActorProperties {
     fn send_drain_marker(&self) -> Result<(), MessagingErr<()>> {
         let mut state = self.message_admission.load(Ordering::Acquire);
         loop {
+            #[cfg(ractor_verif)]
+            crate::verif::point("marker.iter", self.id.pid(), 0);
             if state & MESSAGE_ADMISSION_CLOSED == 0
                 || state & MESSAGE_ADMISSION_COUNT_MASK != 0
                 || state & DRAIN_MARKER_SENT != 0
